@@ -228,8 +228,15 @@ def run_submit_race(rp, choices, final_state='FAILED'):
     tm._tasks_lock = TimedCoopRLock()
     tm._known_uids = set()
     old = [stubs.make_task(rp, tm, 'task.000000', 'AGENT_EXECUTING', pilot='pilot.0000'),
+           stubs.make_task(rp, tm, 'task.000001', 'AGENT_STAGING_OUTPUT', pilot='pilot.0000'),
            stubs.make_task(rp, tm, 'task.000002', 'AGENT_EXECUTING', pilot='pilot.0001')]
     events, errs, new = [], [], []
+    # the callback scans the registry without the tasks lock: each task it fails is a point at which the submitting
+    # thread may run (and enter its new tasks into the registry)
+    orig_update = rp.Task._update
+    def _update(self, d, *a, **k):
+        coop.point('task-update')
+        return orig_update(self, d, *a, **k)
     rec = tm.advance
     def advance(things, state=None, publish=True, push=False, **kw):
         if state == 'TMGR_SCHEDULING_PENDING':
@@ -241,6 +248,7 @@ def run_submit_race(rp, choices, final_state='FAILED'):
             rec(things, state, publish, push)
     tm.advance = advance
     ctl = coop.Controller()
+    rp.Task._update = _update
     try:
         def submit():
             try:
@@ -259,16 +267,17 @@ def run_submit_race(rp, choices, final_state='FAILED'):
             if not ctl.workers[c].done: ctl.grant(c)
     finally:
         ctl.close()
+        rp.Task._update = orig_update
     view = {t.uid: (t.state, str(t.exception_detail)) for t in old + new}
     return events, view, errs
 
 
 def submit_race_monitor(events, view, errs, fs):
     bad = []
-    if errs or len(view) != 4:
-        bad.append(('submission:raised-or-incomplete', '%s, tasks %s' % (errs, sorted(view))))
+    if errs or len(view) != 5:
+        bad.append(('submission:pilot-callback-or-submission-raised', '%s; tasks afterwards %s; order of events: %s' % (errs, view, events)))
         return bad
-    for uid in ('task.000000', 'task.000010'):
+    for uid in ('task.000000', 'task.000001', 'task.000010'):
         st, det = view[uid]
         # a new task counts as the pilot's when it had reached the scheduler before the pilot's end was delivered
         if uid == 'task.000010' and not ('handed' in events and events.index('handed') < events.index('final')):
@@ -286,7 +295,7 @@ def submit_race_monitor(events, view, errs, fs):
 def submit_race_part(ctx, rp):
     import itertools
     n, seen = 0, set()
-    for k in range(0, 7):
+    for k in range(0, 8):
         for choices in itertools.product(['submit', 'final'], repeat=k):
             for fs in (['FAILED'] if k > 3 else ['FAILED', 'DONE', 'CANCELED']):
                 events, view, errs = run_submit_race(rp, choices, fs)
@@ -295,7 +304,7 @@ def submit_race_part(ctx, rp):
                 for sig, what in submit_race_monitor(events, view, errs, fs):
                     ctx.fail(sig, what, {'submit_race': {'choices': list(choices), 'final': fs}}, observed=view)
     ctx.obligation('a pilot ends while the real submit_tasks hands new tasks bound to it to the scheduler: all schedules of the two '
-                   'threads up to 6 steps (%d runs)' % n, 'tie', True, '')
+                   'threads up to 7 steps (%d runs)' % n, 'tie', True, '')
 
 
 def contended_part(ctx, rp):
